@@ -118,7 +118,11 @@ func VH_C09_CraftedTxs() {
 	b = append(b, vnondetBytes("tail", 0, vparam("T", 4))...)
 	c09cap(b)
 	var tt Txs
-	n, _ := tt.ReadFrom(bytes.NewReader(b))
+	var r io.Reader = bytes.NewReader(b)
+	if vnondetBool("plain-reader") {
+		r = &vShortReader{b: b} // a reader that exposes nothing but Read (no Len, no Seek)
+	}
+	n, _ := tt.ReadFrom(r)
 	vassert(n <= int64(len(b)), "crafted Txs: bytes read <= supplied")
 	vreach("craftedtxs-done")
 }
